@@ -1,268 +1,790 @@
-"""C17 — iv_fd_pump relays the byte stream intact and reports its state truthfully.
+"""C17 -- iv_fd_pump relays the byte stream intact and reports its state truthfully.
 
-Byte-stream equality over all chunkings is a value property: not decided.
+Formulation (see REPORT-C17.md).  The three public entry points of the pump
+(iv_fd_pump_pump, iv_fd_pump_init, iv_fd_pump_destroy, plus iv_fd_pump_is_done) are evaluated
+with every static helper inlined (core.Inliner) by the path evaluator of h17.py:
+
+  * for every abstract pump state that satisfies the pump's invariant (buffered byte count
+    0 / some / buffer capacity, full flag, end-of-file stage 0/1/2, RELAY_EOF requested or not,
+    buffer attached iff bytes are buffered) and
+  * for every outcome of the transfer system calls (EINTR, EAGAIN, hard error, 0, partial,
+    complete) in both transfer modes (read/write and splice)
+
+every path through the entry point is walked.  What the path *does* -- the sequence of
+observable effects: input transfer, output transfer, memmove, shutdown, set_bands, buffer
+cached / freed, the return value and the pump fields at return -- is replayed against the
+reference state machine of the property (a ghost state: true fill level, full, stage).  Each
+rule is a relation between the effects and the ghost state, so the rules do not depend on how
+the code is cut into helpers, on what locals cache, on the order of independent stores, on
+loop or branch shape, or on the names of static functions, locals and internal globals.
+
+Anchors: the exported functions, the public record iv_fd_pump (fields bytes, full, saw_fin,
+buf, flags, from_fd, to_fd, set_bands), and the libc/ivykis primitives read, write, splice,
+shutdown, memmove/memcpy, ioctl, malloc/calloc, free, iv_list_add[_tail].
+
+Byte-stream equality itself is a value property over all chunkings: it is decided here only
+through its necessary conditions (append at the fill level, send from the base, compact the
+remainder, account every transferred byte, never cache a non-empty pipe).
 """
-import itertools
-from ..core import (names_of, same_value, AnalysisBroken, Inliner, canon, strip, last_member, must_pass, relpath, norm_cond, walk, forward)
-from ..analyses import (is_call, holding, path_to, describe, exits_of, callback_kind, loops, innermost_loop, must_pass_from_block)
-from .. import interp
+import errno as _errno
+
+from ..core import AnalysisBroken
+from .. import roles
+from .h17 import Machine, St, Sym, INF, is_ptr, show_val
+
+REC = 'iv_fd_pump'
+EINTR, EAGAIN, EIO = _errno.EINTR, _errno.EAGAIN, _errno.EIO
+ERRNAME = {EINTR: 'EINTR', EAGAIN: 'EAGAIN', EIO: 'EIO'}
+LIST_INSERT = ('iv_list_add', 'iv_list_add_tail')
+MOVE = ('memmove', 'memcpy', '__builtin_memmove', '__builtin_memcpy', '__memmove_chk', '__memcpy_chk')
+PARTIAL = 7           # a fill level strictly between empty and full
+
+TEXT = {
+    'shutdown-after-drain': 'shutdown() of the output happens only when end-of-file was seen and no byte is left in the buffer',
+    'shutdown-output-when-requested': 'the descriptor shut down is to_fd, for writing, exactly once at the transition to the final stage and only when RELAY_EOF was requested',
+    'final-stage-after-drain': 'the final stage is entered only after end-of-file was seen and the buffer drained',
+    'eof-seen-on-zero-return': 'the stage leaves 0 exactly when the input transfer returned 0',
+    'finishes-when-drained': 'once end-of-file was seen and the buffer is empty the stage is final (the pump reports completion)',
+    'stage-domain': 'the stage at return is 0, 1 or 2 and the dispatch never falls into iv_fatal from a state satisfying the invariant',
+    'error-return-iff-transfer-failed': '-1 is returned exactly when a transfer failed hard (or no buffer could be obtained); otherwise 0 or 1',
+    'input-only-with-room-before-eof': 'an input transfer is attempted only while the buffer has room and no end-of-file was seen',
+    'input-attempted-when-wanted': 'with room and before end-of-file the input transfer is attempted',
+    'output-only-with-data': 'an output transfer is attempted only with buffered data',
+    'output-attempted-when-data': 'buffered data is offered to the output in the same call',
+    'full-cleared-when-data-left': 'after output progress the full flag equals the true state (cleared: input is wanted again)',
+    'full-set-when-no-room': 'the full flag equals the true state: set when the read filled the buffer / the pipe refused input that is pending, unchanged otherwise',
+    'read:offset+length==BUF_SIZE': 'read() appends at the fill level of the attached buffer and its length is capacity minus fill level (>= 1)',
+    'alloc>=offset+BUF_SIZE': 'the read/write mode allocation covers the data area offset plus the capacity',
+    'write:length-is-bytes-from-base': 'write() sends exactly the buffered bytes from the base of the data area to to_fd',
+    'write:remainder-compacted': 'after a partial write the unsent remainder is moved to the base of the data area before the next transfer or return',
+    'splice:pipe-ends': 'splice moves from_fd -> write end and read end -> to_fd of the attached buffer\'s pipe',
+    'bytes-accounting': 'the bytes field at return is the old value plus what the input transfer returned minus what the output transfer returned',
+    'buffer-release': 'the buffer stays attached exactly while bytes are buffered; a detached buffer was cached or freed exactly once',
+    'init:state-and-bands': 'iv_fd_pump_init leaves (buf, bytes, full, stage) = (NULL, 0, 0, 0) and then requests input only',
+    'destroy:bands-cleared': 'iv_fd_pump_destroy withdraws the requested bands unless the pump had finished',
+    'destroy:buffer-released': 'iv_fd_pump_destroy detaches the buffer and caches or frees it exactly once',
+    'is_done:reports-final-stage': 'iv_fd_pump_is_done is true exactly at the final stage',
+}
 
 
 def run(ctx):
-    ctx.rule('R-C17a', 'EOF is relayed only after the buffer drained: shutdown(to_fd) and the final stage are on the bytes == 0 edge; '
-                       'the intermediate stage is stored only when the input transfer returned 0', floor=5)
-    ctx.rule('R-C17b', 'return code and bands are a total function of the state: over stage x full x bytes, input is wanted iff stage 0 and '
-                       'not full, output iff data is buffered (stage 1 implies data), the call returns 0 exactly at the final stage; the '
-                       'stages stored are exactly the stages handled', floor=12)
-    ctx.rule('R-C17c', 'input is attempted only with room and before EOF, output only with data; full is cleared whenever data left the buffer', floor=3)
-    ctx.rule('R-C17d', 'bounded transfer: the read targets buffer+bytes with length BUF_SIZE-bytes inside an allocation of at least '
-                       'offset-of-buffer + BUF_SIZE; the write sends `bytes` bytes from the buffer base', floor=3)
-    ctx.section(eof)
-    ctx.section(state_function)
-    ctx.section(guards)
-    ctx.section(bounds)
-    ctx.section(cache_clean)
+    ctx.rule('R-C17a', 'EOF is relayed only after the buffer drained: over all abstract states and transfer outcomes, shutdown(to_fd) and the '
+                       'final stage happen only with EOF seen and a true fill level of 0, EOF is recorded exactly on a 0 return of the input '
+                       'transfer, and the final stage is reached as soon as both hold', floor=5)
+    ctx.rule('R-C17b', 'return code and bands are a function of the true state at return: input is wanted iff stage 0 and not full, output iff '
+                       'data is buffered, set_bands is called once after the last transfer, the call returns 0 exactly at the final stage and -1 '
+                       'exactly on a hard transfer failure; init/destroy/is_done agree with that state machine', floor=10)
+    ctx.rule('R-C17c', 'input is attempted exactly with room and before EOF, output exactly with data; the full flag tracks the true state '
+                       '(cleared whenever data left the buffer)', floor=6)
+    ctx.rule('R-C17d', 'bounded, loss-free transfer: read appends at the fill level with length capacity-fill inside the allocation, write sends '
+                       'the buffered bytes from the base, the remainder is compacted, the byte count changes only by what was transferred, a '
+                       'buffer (in splice mode: a kernel pipe) is detached exactly when empty and is never cached while it holds bytes', floor=9)
+    ctx.section(pump_machine)
+    ctx.section(lifecycle)
 
 
-def eof(ctx):
-    prog = ctx.prog
-    n = 0
-    for fn in ('iv_fd_pump_try_input', 'iv_fd_pump_try_output'):
-        f = prog.fn(fn)
-        hd = holding(f)
-        for e in f.events():
-            fin = e['ev'] == 'store' and last_member(e['lhs']) == ('iv_fd_pump', 'saw_fin') and canon(e.get('rhs')) == '2'
-            shut = is_call(e, 'shutdown')
-            if not (fin or shut):
-                continue
-            n += 1
-            A = hd.get((e['_b'], e['_i']), frozenset())
-            ok = any(a[0] == '==' and a[2] == '0' and a[1].endswith('->bytes') for a in A)
-            ctx.ob('R-C17a', '%s:%s-after-drain' % (fn, 'final-stage' if fin else 'shutdown'), ok, loc=e['loc'],
-                   detail='%s is on the edge ip->bytes == 0' % describe(e), path=None if ok else path_to(f, e), fn=f.q)
-            if shut:
-                ok2 = canon(e['args'][0]).endswith('->to_fd') and any(a[0] == '!=' and 'flags &' in a[1] for a in A)
-                ctx.ob('R-C17a', '%s:shutdown-output-when-requested' % fn, ok2, loc=e['loc'],
-                       detail='the output descriptor is shut down only when RELAY_EOF was requested', fn=f.q)
-    if n < 4:
-        raise AnalysisBroken('EOF relay sites: %d found, 4 confirmed' % n)
-    f = prog.fn('iv_fd_pump_try_input')
-    hd = holding(f)
-    s1 = [e for e in f.events() if e['ev'] == 'store' and last_member(e['lhs']) == ('iv_fd_pump', 'saw_fin') and canon(e.get('rhs')) == '1']
-    ok = bool(s1)
-    for e in s1:
-        A = hd.get((e['_b'], e['_i']), frozenset())
-        ok = ok and any(a[0] == '==' and a[2] == '0' and all(k[0] == 'var' for k in a[3]) for a in A)
-    ctx.ob('R-C17a', 'try_input:eof-seen-on-zero-return', ok, loc=s1[0]['loc'] if s1 else f.loc,
-           detail='stage 1 (EOF seen) is stored only on the edge where the input transfer returned 0', fn=f.q)
-    # output side finishes only from stage 1
-    g = prog.fn('iv_fd_pump_try_output')
-    hd = holding(g)
-    for e in g.events():
-        if e['ev'] == 'store' and last_member(e['lhs']) == ('iv_fd_pump', 'saw_fin'):
-            A = hd.get((e['_b'], e['_i']), frozenset())
-            ctx.ob('R-C17a', 'try_output:finishes-only-after-eof', any(a[0] == '==' and a[1].endswith('->saw_fin') and a[2] == '1' for a in A), loc=e['loc'],
-                   detail='the output side moves to the final stage only from stage 1', fn=g.q)
+# --------------------------------------------------------------------------------------
+# result bookkeeping: one obligation per (rule, instance), true iff true on every evaluated path
+# --------------------------------------------------------------------------------------
+
+class Results(object):
+    def __init__(self):
+        self.items = {}
+        self.order = []
+
+    def check(self, rule, inst, ok, detail='', loc=None, fn=None, tail=None):
+        k = (rule, inst)
+        it = self.items.get(k)
+        if it is None:
+            it = self.items[k] = dict(ok=True, n=0, detail=None, loc=None, okloc=None, fn=fn)
+            self.order.append(k)
+        it['n'] += 1
+        if ok:
+            if it['okloc'] is None and loc:
+                it['okloc'] = loc
+        elif it['ok']:
+            it['ok'] = False
+            it['detail'] = detail + (tail() if tail else '')
+            it['loc'] = loc
+
+    def emit(self, ctx, fallback_loc, fn):
+        for (rule, inst) in self.order:
+            it = self.items[(rule, inst)]
+            base = TEXT.get(inst)
+            if base is None and inst.endswith(':buffer-cached-only-empty'):
+                base = 'a buffer enters the per-thread cache in splice mode only when its pipe holds no bytes (true fill level 0, not the field)'
+            if base is None and inst.startswith('state('):
+                base = 'at this state at return set_bands was called once, after the last transfer, with (stage==0 && !full, bytes!=0), and the return value is 0 iff stage 2'
+            if it['ok']:
+                detail = '%s [%d path evaluations]' % (base, it['n'])
+            else:
+                detail = '%s -- VIOLATED: %s' % (base, it['detail'])
+            ctx.ob(rule, inst, it['ok'], loc=(it['loc'] if not it['ok'] else it['okloc']) or fallback_loc, detail=detail, fn=it['fn'] or fn)
 
 
-def state_function(ctx):
-    prog = ctx.prog
-    f = prog.fn('__iv_fd_pump_pump')
-    sw = [b for b, blk in f.blocks.items() if blk.term and blk.term.get('cls') == 'SwitchStmt']
-    ip = f.params[0]['name']
-    if len(sw) != 1:
-        # an if-chain instead of a switch: evaluate from the first block that tests saw_fin after the transfers
-        cands = [b for b, blk in f.blocks.items() if blk.term and blk.term.get('cond') is not None and 'saw_fin' in canon(blk.term['cond'])
-                 and not any(is_call(e, ('iv_fd_pump_try_input', 'iv_fd_pump_try_output')) for e in blk.events)]
-        outs = [e for e in f.events() if is_call(e, 'iv_fd_pump_try_output')]
-        reach = set()
-        for o in outs:
-            st = list(f.blocks[o['_b']].succ)
-            while st:
-                x = st.pop()
-                if x in reach or x is None:
-                    continue
-                reach.add(x)
-                st.extend(f.blocks[x].succ)
-        cands = [b for b in cands if b in reach]
-        if not cands:
-            raise AnalysisBroken('__iv_fd_pump_pump: state dispatch not found')
-        order = f.rpo()
-        sw = [sorted(cands, key=lambda b: order.index(b))[0]]
-    start = sw[0]
-    stored = set()
-    for fn in prog.all_funcs():
-        for e in fn.events():
-            if e['ev'] == 'store' and last_member(e['lhs']) == ('iv_fd_pump', 'saw_fin'):
-                v = strip(e['rhs'])
-                if v.get('k') != 'int':
-                    raise AnalysisBroken('saw_fin stored a non-constant')
-                stored.add(v['v'])
-    for stage, full, data in itertools.product(sorted(stored), (False, True), (False, True)):
-        if stage == 1 and not data:
-            continue    # unreachable by R-C17a (stage 1 implies buffered data)
-        asg = interp.Assignment(ints={'%s->saw_fin' % ip: stage}, bools={'%s->full' % ip: full, '%s->bytes' % ip: data})
-        calls = []
-        def cm(e, env, a):
-            if e['ev'] == 'call' and callback_kind(e) == ('hook', 'pump hook'):
-                calls.append((interp.evaluate(e['args'][1], a, env), interp.evaluate(e['args'][2], a, env)))
-        try:
-            res = interp.run(f, asg, start=start, call_model=cm)
-        except AnalysisBroken as ex:
-            ctx.ob('R-C17b', 'state(stage=%d,full=%d,data=%d)' % (stage, full, data), False, loc=f.loc, detail=str(ex), fn=f.q)
-            continue
-        want_in = int(stage == 0 and not full)
-        want_out = int(data and stage <= 1)
-        want_ret = 0 if stage == 2 else 1
-        ok = res['end'] == 'ret' and len(calls) == 1 and (int(bool(calls[0][0])), int(bool(calls[0][1]))) == (want_in, want_out) and res['ret'] == want_ret
-        ctx.ob('R-C17b', 'state(stage=%d,full=%d,data=%d)' % (stage, full, data), ok, loc=f.loc,
-               detail='set_bands%s return %s (%s); expected set_bands(%d, %d) return %d' % (calls, res['ret'], res['end'], want_in, want_out, want_ret), fn=f.q)
-    ctx.ob('R-C17b', 'stages-stored', stored == {0, 1, 2}, loc=f.loc, detail='constants ever stored into saw_fin: %s' % sorted(stored), fn=f.q)
-    # error paths return -1 exactly when a transfer helper reported failure
-    hd = holding(f)
-    rets = [e for (pb, pi, e) in exits_of(f)]
-    neg = [e for e in rets if canon(e.get('value')) == '-1']
-    ok = bool(neg)
-    for e in neg:
-        A = hd.get((e['_b'], e['_i']), frozenset())
-        ok = ok and any(a[0] == '!=' and a[2] == '0' and a[1].startswith('iv_fd_pump_try_') for a in A)
-    ctx.ob('R-C17b', 'error-return-iff-transfer-failed', ok, loc=neg[0]['loc'] if neg else f.loc,
-           detail='-1 is returned exactly on the failure edge of a transfer helper', fn=f.q)
+# --------------------------------------------------------------------------------------
+# the harness: seeds the pump object, models the environment, records observable effects
+# --------------------------------------------------------------------------------------
+
+class Scenario(object):
+    __slots__ = ('bytes', 'full', 'stage', 'flags', 'hasbuf')
+
+    def __init__(self, bytes_, full, stage, flags, hasbuf):
+        self.bytes, self.full, self.stage, self.flags, self.hasbuf = bytes_, full, stage, flags, hasbuf
+
+    def __str__(self):
+        return 'state at entry: bytes=%s full=%s stage=%s %s buffer %s' % (
+            self.bytes, self.full, self.stage, 'RELAY_EOF' if self.flags else 'no-RELAY_EOF', 'attached' if self.hasbuf else 'absent')
 
 
-def guards(ctx):
-    prog = ctx.prog
-    f = prog.fn('__iv_fd_pump_pump')
-    hd = holding(f)
-    ip = f.params[0]['name']
-    ins = [e for e in f.events() if is_call(e, 'iv_fd_pump_try_input')]
-    outs = [e for e in f.events() if is_call(e, 'iv_fd_pump_try_output')]
-    if not ins or not outs:
-        raise AnalysisBroken('pump: transfer helper calls not found')
-    for e in ins:
-        A = hd.get((e['_b'], e['_i']), frozenset())
-        ok = any(a[0] == '==' and a[1] == '%s->full' % ip and a[2] == '0' for a in A) and any(a[0] == '==' and a[1] == '%s->saw_fin' % ip and a[2] == '0' for a in A)
-        ctx.ob('R-C17c', 'input-only-with-room-before-eof', ok, loc=e['loc'], detail='try_input is on the edge !full && saw_fin == 0', fn=f.q)
-    for e in outs:
-        A = hd.get((e['_b'], e['_i']), frozenset())
-        ok = any(a[0] == '!=' and a[1] == '%s->bytes' % ip and a[2] == '0' for a in A)
-        ctx.ob('R-C17c', 'output-only-with-data', ok, loc=e['loc'], detail='try_output is on the edge bytes != 0', fn=f.q)
-    g = prog.fn('iv_fd_pump_try_output')
-    dec = [e for e in g.events() if e['ev'] == 'store' and last_member(e['lhs']) == ('iv_fd_pump', 'bytes') and e['op'] in ('-=', '--')]
-    clr = must_pass(g, lambda e: e['ev'] == 'store' and last_member(e['lhs']) == ('iv_fd_pump', 'full') and canon(e.get('rhs')) == '0')
-    okc = bool(dec)
-    for d in dec:
-        # full = 0 before or after the decrement, before return
-        mp = must_pass(g, lambda e: e['ev'] == 'store' and last_member(e['lhs']) == ('iv_fd_pump', 'full') and canon(e.get('rhs')) == '0', start_event=d)
-        after = all(mp.get((pb, pi), True) for (pb, pi, _) in exits_of(g))
-        okc = okc and (bool(clr.get((d['_b'], d['_i']))) or after)
-    ctx.ob('R-C17c', 'full-cleared-when-data-left', okc, loc=dec[0]['loc'] if dec else g.loc,
-           detail='whenever bytes decreases, full is cleared on that path (input is wanted again)', fn=g.q)
+class Harness(object):
+    def __init__(self, prog, rootname, seed_fields=True):
+        self.prog = prog
+        f = prog.fn(rootname)
+        if f.static or not f.blocks:
+            raise AnalysisBroken('%s is not an exported function with a body' % rootname)
+        self.root = f
+        ps = [p for p in f.params if p.get('record') == REC and p.get('ptr')]
+        if len(ps) != 1:
+            raise AnalysisBroken('%s: no single struct iv_fd_pump * parameter' % rootname)
+        self.ipname = ps[0]['name']
+        self.g = roles.inlined(prog, f, depth=16)
+        self.m = Machine(prog, self.g, call_model=self.call_model, on_store=self.on_store)
+        self.IP = Sym(('param', self.ipname))
+        self.OBJ = ('obj', self.IP)
+        self.BUF = Sym(('seed', 'attached buffer'))
+        self.pipe_bases = set()     # byte offsets (inside the buffer object) of the arrays handed to pipe()/pipe2
+        self.pipe_ends = {}         # 'in' / 'out' -> byte offset of the descriptor the splice uses
 
+    def F(self, name):
+        return ('fld', self.OBJ, REC, name)
 
-def bounds(ctx):
-    prog = ctx.prog
-    f = prog.fn('iv_fd_pump_try_input')
-    reads = [e for e in f.events() if is_call(e, 'read')]
-    if not reads:
-        raise AnalysisBroken('try_input: read not found')
-    rec = prog.records.get('iv_fd_pump_buf')
-    uoff = [x['offset'] for x in rec['fields'] if x['name'] == 'u'][0]
-    for e in reads:
-        dst, ln = strip(e['args'][1]), strip(e['args'][2])
-        ok = dst.get('k') == 'bin' and dst['op'] == '+' and ln.get('k') == 'bin' and ln['op'] == '-' \
-            and canon(dst['r']) == canon(ln['r']) and strip(ln['l']).get('k') == 'int' and last_member(dst['l']) is not None
-        size = strip(ln['l'])['v'] if ok else None
-        ctx.ob('R-C17d', 'read:offset+length==BUF_SIZE', ok, loc=e['loc'],
-               detail='read(from, buffer + %s, %s - %s): destination offset plus length is the constant buffer size' % (
-                   canon(dst['r']) if ok else '?', size, canon(ln['r']) if ok else '?'), fn=f.q)
-        a = prog.fn('buf_alloc')
-        sizes = [strip(s['rhs'])['v'] for s in a.events() if s['ev'] == 'store' and canon(s['lhs']) == 'size' and strip(s['rhs']).get('k') == 'int']
-        hd = holding(a)
-        nosplice = [s for s in a.events() if s['ev'] == 'store' and canon(s['lhs']) == 'size'
-                    and any(x[0] == '==' and x[1] == 'splice_available' and x[2] == '0' for x in hd.get((s['_b'], s['_i']), frozenset()))]
-        if prog.global_for('iv_fd_pump.c', 'splice_available') is None:
-            # configuration without splice: the flag is the constant 0 and the other arm is not compiled in
-            reach = a.reachable_blocks()
-            nosplice = [s for s in a.events() if s['ev'] == 'store' and canon(s['lhs']) == 'size' and s['_b'] in reach]
-        oka = ok and bool(nosplice) and all(strip(s['rhs']).get('k') == 'int' and strip(s['rhs'])['v'] >= uoff + size for s in nosplice)
-        ctx.ob('R-C17d', 'alloc>=offset+BUF_SIZE', oka, loc=a.loc,
-               detail='read/write mode allocates %s bytes >= %d (offset of the buffer) + %s' % ([strip(s['rhs']).get('v') for s in nosplice], uoff, size), fn=a.q)
-    g = prog.fn('iv_fd_pump_try_output')
-    # compaction: in read/write mode, once bytes were consumed the rest is moved to the buffer base on every path
-    dec = [e for e in g.events() if e['ev'] == 'store' and last_member(e['lhs']) == ('iv_fd_pump', 'bytes') and e['op'] in ('-=', '--')]
-    if prog.global_for('iv_fd_pump.c', 'splice_available') is not None:
-        from ..analyses import force_edges
-        def keep(blk, si, atoms):
-            for (op, lc, rc, l, r) in atoms:
-                if lc == 'splice_available' and rc == '0' and op in ('==', '!='):
-                    return op == '=='
+    def initial(self, sc):
+        st = St()
+        m = self.m
+        m.poke(st, ('var', self.ipname), self.IP)
+        st.cons[self.IP] = (1, INF, frozenset())
+        if sc is not None:
+            m.poke(st, self.F('bytes'), sc.bytes)
+            m.poke(st, self.F('full'), sc.full)
+            m.poke(st, self.F('saw_fin'), sc.stage)
+            m.poke(st, self.F('flags'), sc.flags)
+            m.poke(st, self.F('buf'), self.BUF if sc.hasbuf else 0)
+            st.cons[self.BUF] = (1, INF, frozenset())
+        return st
+
+    def fields(self, st):
+        return tuple(self.m.peek(st, self.F(n)) for n in ('bytes', 'full', 'saw_fin', 'buf'))
+
+    def explore(self, sc):
+        return self.m.explore(self.initial(sc))
+
+    # -- environment -------------------------------------------------------
+    def eff(self, st, kind, e, **kw):
+        d = dict(kind=kind, e=e, fields=self.fields(st))
+        d.update(kw)
+        st.effects.append(d)
+        return d
+
+    def call_model(self, m, st, e, callee, fv, args):
+        fromfd = m.read(st, self.F('from_fd'))
+        tofd = m.read(st, self.F('to_fd'))
+        if callee == 'read' and len(args) == 3 and args[0] is fromfd:
+            return self.transfer(st, e, 'in', 'rw', args[2], fd=args[0], ptr=args[1])
+        if callee == 'write' and len(args) == 3 and args[0] is tofd:
+            return self.transfer(st, e, 'out', 'rw', args[2], fd=args[0], ptr=args[1])
+        if callee == 'splice' and len(args) == 6:
+            if args[0] is fromfd:
+                return self.transfer(st, e, 'in', 'splice', args[4], fd=args[0], pipe=args[2])
+            if args[2] is tofd:
+                return self.transfer(st, e, 'out', 'splice', args[4], fd=args[2], pipe=args[0])
+        if callee in ('read', 'write', 'splice', 'recv', 'send', 'readv', 'writev', 'sendfile', 'tee'):
+            if any(a is fromfd or a is tofd for a in args):
+                self.eff(st, 'stray', e, callee=callee)
+        if callee == 'shutdown' and len(args) == 2:
+            self.eff(st, 'shutdown', e, fd=args[0], how=args[1], is_to=args[0] is tofd)
             return None
-        gw = force_edges(g, keep)
-    else:
-        gw = g
-    def compaction(e):
-        if not is_call(e, ('memmove', 'memcpy')):
-            return False
-        d, s_, n_ = e['args'][0], strip(e['args'][1]), e['args'][2]
-        return canon(d).endswith('u.buf') and s_.get('k') == 'bin' and s_['op'] == '+' and canon(s_['l']) == canon(d) \
-            and last_member(n_) == ('iv_fd_pump', 'bytes')
-    okc = bool(dec)
-    for d in dec:
-        mp = must_pass(gw, compaction, start_event=d)
-        for (pb, pi, e) in exits_of(gw):
-            if mp.get((pb, pi)) is False:
-                okc = False
-    ctx.ob('R-C17d', 'write:remainder-compacted', okc, loc=dec[0]['loc'] if dec else g.loc,
-           detail='after a (partial) write in read/write mode the unsent remainder is moved to the buffer base (memmove(buf, buf + sent, bytes)) on every path: '
-                  'the next write and the next read offset both assume it', fn=g.q)
-    for e in [x for x in g.events() if is_call(x, 'write')]:
-        ok = last_member(e['args'][2]) == ('iv_fd_pump', 'bytes') and canon(e['args'][1]).endswith('u.buf')
-        ctx.ob('R-C17d', 'write:length-is-bytes-from-base', ok, loc=e['loc'],
-               detail='write(to, %s, %s)' % (canon(e['args'][1]), canon(e['args'][2])), fn=g.q)
+        if callee in MOVE and len(args) >= 3:
+            self.eff(st, 'move', e, dst=args[0], src=args[1], n=args[2], overlap_safe='memmove' in callee)
+            return None
+        if callee == 'ioctl' and len(args) >= 3 and args[0] is fromfd and is_ptr(args[2]):
+            out = []
+            for v in (0, 9):
+                s2 = st.fork()
+                m.write(s2, m.deref(args[2]), v)
+                m.set_result(s2, e, 0)
+                self.eff(s2, 'pending', e, value=v)
+                out.append(s2)
+            return out
+        if callee in ('malloc', 'calloc') and args:
+            size = args[0]
+            if callee == 'calloc' and len(args) == 2:
+                size = m.arith('*', args[0], args[1])
+            v = Sym(('alloc', size, e.get('loc')))
+            m.set_result(st, e, v)
+            return [st]
+        if callee in ('pipe', 'pipe2', 'syscall'):
+            for a in args:
+                if is_ptr(a):
+                    ad = m.byteaddr(a)
+                    if ad is not None and ad[0][0] == 'obj':
+                        self.pipe_bases.add(ad[1])
+                    break
+            return None
+        if callee == 'free' and len(args) == 1:
+            self.eff(st, 'free', e, ptr=args[0])
+            return None
+        if callee in LIST_INSERT and len(args) == 2:
+            self.eff(st, 'listadd', e, node=args[0], head=args[1])
+            m.set_result(st, e, 0)
+            return [st]
+        if callee == '__errno_location':
+            m.set_result(st, e, ('ptr', ('errno',), 0))
+            return [st]
+        if fv is not None and fv is m.read(st, self.F('set_bands')):
+            self.eff(st, 'bands', e, args=tuple(args[1:3]), cookie_ok=bool(args) and args[0] is m.read(st, self.F('cookie')))
+            m.set_result(st, e, 0)
+            return [st]
+        for a in args:
+            ad = m.byteaddr(a) if (is_ptr(a) or a is self.IP) else None
+            if ad is not None and ad[0] == self.OBJ:
+                raise AnalysisBroken('%s: the pump object is passed to %s, which is not inlined' % (self.root.name, callee or 'an indirect call'))
+        return None
+
+    def transfer(self, st, e, kind, mode, n, **kw):
+        if isinstance(n, int):
+            if n < 1:
+                rs = []
+            elif kind == 'in' and mode == 'rw':
+                rs = sorted({max(1, n // 3), n})
+            elif kind == 'in':
+                rs = [min(5, n)]
+            else:
+                rs = sorted({max(1, n // 2), n})
+        else:
+            rs = [5]
+        outcomes = [(-1, EAGAIN), (-1, EIO), (0, None)] + [(r, None) for r in rs]
+        used = st.marks.get('eintr', frozenset())
+        if kind not in used:
+            outcomes.insert(0, (-1, EINTR))
+        out = []
+        for r, en in outcomes:
+            s2 = st.fork()
+            if en == EINTR:
+                s2.marks['eintr'] = used | {kind}
+            if en is not None:
+                self.m.poke(s2, ('errno',), en)
+            self.m.set_result(s2, e, r)
+            self.eff(s2, kind, e, mode=mode, n=n, r=r, errno=en, **kw)
+            out.append(s2)
+        return out
+
+    def on_store(self, m, st, e, L, v):
+        """a pointer to (into) an object stored somewhere that is neither a local nor the pump: the object escapes"""
+        root = m.root_of(L)
+        if root == self.OBJ:
+            if L[0] == 'fld' and L[1] == self.OBJ:
+                st.marks[('w', L[3])] = e.get('loc')
+            return
+        if root[0] == 'var' and root[1] not in m.globals:
+            return
+        if root[0] in ('tmp', 'errno'):
+            return
+        a = None
+        if is_ptr(v):
+            a = m.byteaddr(v)
+            if a is None:
+                a = (m.root_of(v[1]), None)
+        elif isinstance(v, Sym) or (isinstance(v, tuple) and v and v[0] == 'op'):
+            a = (('obj', v), 0)
+        if a is None or a[0][0] != 'obj':
+            return
+        if root == a[0]:
+            return
+        self.eff(st, 'escape', e, objroot=a[0], target=root)
+
+    # -- path facts ----------------------------------------------------------
+    def truth_of_global(self, st, name):
+        v = self.m.peek(st, ('var', name))
+        if v is None:
+            return None
+        if isinstance(v, int):
+            return v != 0
+        return st.decide('!=', v, 0)
+
+    def describe(self, sc, st, end):
+        parts = []
+        for f in st.effects:
+            k = f['kind']
+            if k in ('in', 'out'):
+                fnm = {('in', 'rw'): 'read', ('out', 'rw'): 'write', ('in', 'splice'): 'splice-in', ('out', 'splice'): 'splice-out'}[(k, f['mode'])]
+                parts.append('%s(len %s) -> %s%s' % (fnm, show_val(f['n']), f['r'], (' ' + ERRNAME.get(f['errno'], str(f['errno']))) if f['errno'] else ''))
+            elif k == 'bands':
+                parts.append('set_bands(%s)' % ', '.join(show_val(x) for x in f['args']))
+            elif k == 'pending':
+                parts.append('FIONREAD -> %d' % f['value'])
+            elif k == 'move':
+                parts.append('memmove(n=%s)' % show_val(f['n']))
+            elif k == 'listadd':
+                parts.append('cached')
+            elif k == 'escape':
+                pass
+            else:
+                parts.append(k)
+        b, fu, s, bf = self.fields(st)
+        tail = 'return %s' % (show_val(st.marks.get('ret')),) if end == 'ret' else end
+        return '%s; path: %s; %s with bytes=%s full=%s stage=%s buf=%s' % (
+            sc if sc is not None else 'any state', ' ; '.join(parts) or '(no effects)', tail, show_val(b), show_val(fu), show_val(s),
+            'NULL' if (isinstance(bf, int) and bf == 0) else 'attached')
 
 
-def cache_clean(ctx):
-    """A buffer (in splice mode: a kernel pipe) goes back to the per-thread cache
-    only if it is empty: buf_put is told the pump's true fill level."""
+def invariant_states(K):
+    """abstract pump states satisfying the invariant of the state machine:
+       buffer attached <=> bytes > 0;  stage 1 => bytes > 0;  stage 2 => bytes == 0;  full => bytes > 0 and stage 0
+       (read/write mode additionally full <=> bytes == capacity: decided per path once the mode is known)"""
+    out = []
+    levels = [0, PARTIAL] + ([K] if K and K not in (0, PARTIAL) else [])
+    for flags in (0, -1):
+        for b in levels:
+            if b == 0:
+                for stage in (0, 2):
+                    out.append(Scenario(0, 0, stage, flags, False))
+            else:
+                out.append(Scenario(b, 0, 0, flags, True))
+                out.append(Scenario(b, 1, 0, flags, True))
+                out.append(Scenario(b, 0, 1, flags, True))
+    return out
+
+
+def rw_invariant_ok(sc, K):
+    return (sc.full == 1) == (K is not None and sc.bytes == K)
+
+
+def transfer_modes(st):
+    return {f['mode'] for f in st.effects if f['kind'] in ('in', 'out')}
+
+
+# --------------------------------------------------------------------------------------
+# the rules
+# --------------------------------------------------------------------------------------
+
+_SHARED = {}
+
+
+def _require(R, required, what):
+    have = {inst for (_, inst) in R.items}
+    missing = [r for r in required if r not in have]
+    if missing and all(it['ok'] for it in R.items.values()):
+        raise AnalysisBroken('%s: no path evaluates %s (anchor vanished)' % (what, ', '.join(missing)))
+
+
+def pump_machine(ctx):
+    """iv_fd_pump_pump over every invariant state and every transfer outcome"""
     prog = ctx.prog
-    n = 0
-    for f in sorted(prog.all_funcs(), key=lambda f: f.q):
-        for e in [x for x in f.events() if is_call(x, 'buf_put')]:
-            a = strip(e['args'][1])
-            if last_member(a) != ('iv_fd_pump', 'bytes'):
-                if a.get('k') == 'int' and a['v'] == 0 and f.name == 'check_splice_available':
-                    continue
-                n += 1
-                ctx.ob('R-C17d', '%s:buf_put-fill-level' % f.name, False, loc=e['loc'],
-                       detail='buf_put(%s) is not given the pump\'s fill level' % canon(e['args'][1]), fn=f.q)
+    _SHARED.pop(id(prog), None)
+    R = Results()
+    H = Harness(prog, 'iv_fd_pump_pump')
+
+    # capacity: the length of the first read() into an empty buffer
+    first = Scenario(0, 0, 0, 0, False)
+    first_paths = H.explore(first)
+    K = None
+    anyin = False
+    for end, st in first_paths:
+        for f in st.effects:
+            if f['kind'] == 'in':
+                anyin = True
+                if f['mode'] == 'rw' and isinstance(f['n'], int) and K is None:
+                    K = f['n']
+                break
+    if not anyin:
+        raise AnalysisBroken('iv_fd_pump_pump: no input transfer (read/splice from from_fd) is reachable from the empty initial state')
+    scs = [first] + [s for s in invariant_states(K) if not (s.bytes == 0 and s.stage == 0 and s.flags == 0)]
+    allpaths = []
+    for sc in scs:
+        paths = first_paths if sc is first else H.explore(sc)
+        for end, st in paths:
+            allpaths.append((sc, end, st))
+
+    # which internal global selects the transfer mode (role: its truth separates splice paths from read/write paths)
+    gsel = mode_global(H, allpaths)
+    have_splice = any('splice' in transfer_modes(st) for (_, _, st) in allpaths)
+    have_rw = any('rw' in transfer_modes(st) for (_, _, st) in allpaths)
+
+    def path_mode(H_, st):
+        ms = transfer_modes(st)
+        if len(ms) == 1:
+            return next(iter(ms))
+        if len(ms) > 1:
+            return 'mixed'
+        if not have_splice:
+            return 'rw'
+        if not have_rw:
+            return 'splice'
+        if gsel is not None:
+            t = H_.truth_of_global(st, gsel[0])
+            if t is not None:
+                return 'splice' if t == gsel[1] else 'rw'
+        return None
+
+    _SHARED[id(prog)] = dict(K=K, path_mode=path_mode)
+    npaths = 0
+    try:
+        for (sc, end, st) in allpaths:
+            mode = path_mode(H, st)
+            if mode == 'rw' and not rw_invariant_ok(sc, K):
                 continue
-            n += 1
-            obj = canon(a['base'])
-            def tr(x, s_, obj=obj):
-                if x['ev'] == 'store' and last_member(x['lhs']) == ('iv_fd_pump', 'bytes') and canon(strip(x['lhs'])['base']) == obj:
-                    return True
-                return s_
-            _, ev_in = forward(f, False, tr, lambda p, q: p or q)
-            ok = not ev_in.get((e['_b'], e['_i']))
-            ctx.ob('R-C17d', '%s:buf_put-fill-level' % f.name, ok, loc=e['loc'],
-                   detail='buf_put(buf, %s->bytes): the fill level is not overwritten in this function before the buffer is handed back '
-                          '(a non-empty splice pipe must be closed, not cached)' % obj, fn=f.q)
-    if n < 2:
-        raise AnalysisBroken('buf_put sites with a fill level: %d found' % n)
-    b = prog.fn('buf_put')
-    hd = holding(b)
-    cache = [e for e in b.events() if is_call(e, ('iv_list_add', 'iv_list_add_tail'))]
-    ok = bool(cache)
-    for e in cache:
-        A = hd.get((e['_b'], e['_i']), frozenset())
-        # not (splice && bytes): reached only via the false edge of that conjunction => no must-atom; check the free arm instead
-    fr = [e for e in b.events() if is_call(e, '__buf_free')]
-    okf = False
-    for e in fr:
-        A = hd.get((e['_b'], e['_i']), frozenset())
-        if any(a[0] == '!=' and a[1] == 'splice_available' for a in A) and any(a[0] == '!=' and a[1] == b.params[1]['name'] for a in A):
-            okf = True
-    if prog.global_for('iv_fd_pump.c', 'splice_available') is not None:
-        ctx.ob('R-C17d', 'buf_put:dirty-splice-buffer-freed', okf, loc=b.loc,
-               detail='in splice mode a buffer with bytes still in its pipe is released (pipe closed), never cached', fn=b.q)
+            npaths += 1
+            judge_pump(H, R, sc, end, st, mode, K)
+    finally:
+        R.emit(ctx, H.root.loc, H.root.q)
+    ctx.note('iv_fd_pump_pump: %d abstract states, %d paths judged, capacity %s, mode global %s' % (len(scs), npaths, K, gsel))
+    required = ['shutdown-after-drain', 'shutdown-output-when-requested', 'final-stage-after-drain', 'eof-seen-on-zero-return',
+                'finishes-when-drained', 'stage-domain', 'error-return-iff-transfer-failed', 'input-only-with-room-before-eof',
+                'input-attempted-when-wanted', 'output-only-with-data', 'output-attempted-when-data', 'full-cleared-when-data-left',
+                'full-set-when-no-room', 'bytes-accounting', 'buffer-release', 'iv_fd_pump_pump:buffer-cached-only-empty',
+                'state(stage=0,full=0,data=0)', 'state(stage=0,full=0,data=1)', 'state(stage=0,full=1,data=1)',
+                'state(stage=1,full=0,data=1)', 'state(stage=2,full=0,data=0)']
+    if have_rw:
+        required += ['read:offset+length==BUF_SIZE', 'alloc>=offset+BUF_SIZE', 'write:length-is-bytes-from-base', 'write:remainder-compacted']
+    if have_splice:
+        required += ['splice:pipe-ends']
+    _require(R, required, 'iv_fd_pump_pump')
+
+
+def lifecycle(ctx):
+    """iv_fd_pump_destroy, iv_fd_pump_init and iv_fd_pump_is_done against the same state machine"""
+    prog = ctx.prog
+    sh = _SHARED.get(id(prog))
+    if sh is None:
+        raise AnalysisBroken('the analysis of iv_fd_pump_pump (capacity, transfer mode) is not available')
+    K, path_mode = sh['K'], sh['path_mode']
+    R = Results()
+    D = Harness(prog, 'iv_fd_pump_destroy')
+    try:
+        for sc in invariant_states(K):
+            for end, st in D.explore(sc):
+                mode = path_mode(D, st)
+                if mode == 'rw' and not rw_invariant_ok(sc, K):
+                    continue
+                judge_destroy(D, R, sc, end, st, mode)
+        I = Harness(prog, 'iv_fd_pump_init')
+        for end, st in I.explore(None):
+            judge_init(I, R, end, st)
+        Q = Harness(prog, 'iv_fd_pump_is_done')
+        for stage in (0, 1, 2):
+            sc = Scenario(PARTIAL if stage == 1 else 0, 0, stage, 0, stage == 1)
+            for end, st in Q.explore(sc):
+                rv = st.marks.get('ret')
+                R.check('R-C17b', 'is_done:reports-final-stage', end == 'ret' and isinstance(rv, int) and (rv != 0) == (stage == 2),
+                        detail='stage %d: returns %s' % (stage, show_val(rv)), loc=Q.root.loc, fn=Q.root.q)
+    finally:
+        R.emit(ctx, D.root.loc, D.root.q)
+    _require(R, ['init:state-and-bands', 'destroy:bands-cleared', 'destroy:buffer-released', 'iv_fd_pump_destroy:buffer-cached-only-empty',
+                 'is_done:reports-final-stage'], 'iv_fd_pump_init/destroy/is_done')
+
+
+def mode_global(H, allpaths):
+    """(name, truth that means splice) of the file-scope variable whose value separates the splice paths from the
+    read/write paths of the pump; None when there is only one mode or no single such variable"""
+    sp = [st for (_, _, st) in allpaths if transfer_modes(st) == {'splice'}]
+    rw = [st for (_, _, st) in allpaths if transfer_modes(st) == {'rw'}]
+    if not sp or not rw:
+        return None
+    cands = []
+    for name in sorted(H.m.globals):
+        ts = {H.truth_of_global(st, name) for st in sp}
+        tr = {H.truth_of_global(st, name) for st in rw}
+        if len(ts) == 1 and len(tr) == 1 and None not in ts and None not in tr and ts != tr:
+            cands.append((name, next(iter(ts))))
+    return cands[0] if len(cands) == 1 else None
+
+
+def pipe_end(H, v, which):
+    """(buffer object root, ok) for the pipe descriptor value used by a splice: it was read from memory inside an
+    object; the write end lives one int above the read end of the array handed to pipe()/pipe2 (when that call was
+    seen on some path), and both ends are the same cells on every path"""
+    m = H.m
+    if not (isinstance(v, Sym) and isinstance(v.origin, tuple) and v.origin and v.origin[0] in ('idx', 'at', 'fld')):
+        return None, False
+    a = m.locaddr(v.origin)
+    if a is None or a[0][0] != 'obj':
+        return None, False
+    off = a[1]
+    H.pipe_ends.setdefault(which, off)
+    ok = H.pipe_ends[which] == off
+    isz = m.sizeof_type('int')
+    if H.pipe_bases:
+        ok = ok and ((off - isz) if which == 'in' else off) in H.pipe_bases
+    other = H.pipe_ends.get('out' if which == 'in' else 'in')
+    if other is not None:
+        ok = ok and ((off - other) == isz if which == 'in' else (other - off) == isz)
+    return a[0], ok
+
+
+def release_facts(H, st, broot):
+    m = H.m
+    cached = False
+    nfree = 0
+    for f in st.effects:
+        if f['kind'] == 'listadd':
+            a = m.byteaddr(f['node'])
+            if a is not None and a[0] == broot:
+                cached = True
+        elif f['kind'] == 'escape':
+            if f['objroot'] == broot:
+                cached = True
+        elif f['kind'] == 'free':
+            a = m.byteaddr(f['ptr'])
+            if a is not None and a[0] == broot:
+                nfree += 1
+    return cached, nfree
+
+
+def judge_pump(H, R, sc, end, st, mode, K):
+    m = H.m
+
+    def D():
+        return H.describe(sc, st, end) + (' [mode %s]' % mode)
+
+    def loc_of(f):
+        return f['e'].get('loc') if f is not None else H.root.loc
+
+    tofd = m.read(st, H.F('to_fd'))
+    gb, gfull, gstage = sc.bytes, sc.full, sc.stage
+    eof = gstage >= 1
+    finished_now = False
+    must_err = False
+    may_err = False
+    n_shut = 0
+    bands = []
+    activity_after_bands = False
+    pend = None            # (bytes sent, remainder, effect) awaiting compaction
+    need_query = None      # splice EAGAIN with data: full is decided by the pending-input query
+    base = None            # (buffer root, byte offset) of the data area
+    in_seen = out_seen = out_progress = False
+    U = set()
+    if sc.hasbuf:
+        U.add(('obj', H.BUF))
+    for f in st.effects:
+        k = f['kind']
+        if k in ('in', 'out', 'shutdown') and bands:
+            activity_after_bands = True
+        if k in ('in', 'out') and pend is not None:
+            R.check('R-C17d', 'write:remainder-compacted', False, 'the next transfer starts before the remainder of a partial write was moved to the base; ', loc_of(pend[2]), tail=D)
+            pend = None
+        if k == 'in':
+            in_seen = True
+            R.check('R-C17c', 'input-only-with-room-before-eof', gfull == 0 and gstage == 0 and not eof,
+                    'input transfer while full=%s stage=%s; ' % (gfull, gstage), loc_of(f), tail=D)
+            n = f['n']
+            if f['mode'] == 'rw':
+                a = m.byteaddr(f['ptr'])
+                ok = a is not None and isinstance(n, int) and a[0][0] == 'obj'
+                why = 'destination or length not understood'
+                if ok:
+                    U.add(a[0])
+                    dbase = (a[0], a[1] - gb)
+                    if base is None:
+                        base = dbase
+                    why = 'destination is data area %+d (fill level %d), length %s, capacity %s' % (a[1] - base[1], gb, n, K)
+                    ok = dbase == base and n >= 1 and K is not None and gb + n == K
+                    x = a[0][1]
+                    if isinstance(x, Sym) and isinstance(x.origin, tuple) and x.origin[0] == 'alloc' and K is not None:
+                        size = x.origin[1]
+                        R.check('R-C17d', 'alloc>=offset+BUF_SIZE', isinstance(size, int) and size >= base[1] + K,
+                                'allocation of %s bytes for a data area at offset %d of capacity %d; ' % (show_val(size), base[1], K), x.origin[2], tail=D)
+                R.check('R-C17d', 'read:offset+length==BUF_SIZE', ok, why + '; ', loc_of(f), tail=D)
+            else:
+                proot, ok = pipe_end(H, f['pipe'], 'in')
+                if proot is not None:
+                    U.add(proot)
+                R.check('R-C17d', 'splice:pipe-ends', ok and (not isinstance(n, int) or n >= 1), 'input splice writes to %s; ' % show_val(f['pipe']), loc_of(f), tail=D)
+            r, en = f['r'], f['errno']
+            if r > 0:
+                gb += r
+                if f['mode'] == 'rw' and K is not None and gb >= K:
+                    gfull = 1
+            elif r == 0:
+                eof = True
+                gstage = max(gstage, 1)
+            elif en == EAGAIN:
+                if f['mode'] == 'splice' and gb > 0:
+                    need_query = f
+            elif en == EINTR:
+                pass
+            else:
+                must_err = True
+        elif k == 'pending':
+            if need_query is not None:
+                if f['value'] > 0:
+                    gfull = 1
+                need_query = None
+        elif k == 'out':
+            out_seen = True
+            R.check('R-C17c', 'output-only-with-data', gb > 0, 'output transfer with an empty buffer; ', loc_of(f), tail=D)
+            n = f['n']
+            if f['mode'] == 'rw':
+                a = m.byteaddr(f['ptr'])
+                ok = a is not None and a[0][0] == 'obj'
+                if ok:
+                    U.add(a[0])
+                    if base is None:
+                        base = a
+                    ok = a == base and isinstance(n, int) and n == gb and f['fd'] is tofd
+                R.check('R-C17d', 'write:length-is-bytes-from-base', ok,
+                        'write(%s, data area %s, %s) with %d bytes buffered; ' % (show_val(f['fd']), ('%+d' % (a[1] - base[1])) if (a and base) else '?', show_val(n), gb), loc_of(f), tail=D)
+            else:
+                proot, ok = pipe_end(H, f['pipe'], 'out')
+                if proot is not None:
+                    U.add(proot)
+                R.check('R-C17d', 'splice:pipe-ends', ok and (not isinstance(n, int) or n >= 1), 'output splice reads from %s; ' % show_val(f['pipe']), loc_of(f), tail=D)
+            r, en = f['r'], f['errno']
+            if r > 0:
+                gb -= r
+                gfull = 0
+                out_progress = True
+                if f['mode'] == 'rw':
+                    if gb > 0:
+                        pend = (r, gb, f)
+                    else:
+                        R.check('R-C17d', 'write:remainder-compacted', True, '', loc_of(f))
+            elif r == 0:
+                may_err = True
+            elif en in (EAGAIN, EINTR):
+                pass
+            else:
+                must_err = True
+        elif k == 'move':
+            if pend is not None and base is not None:
+                ad, as_ = m.byteaddr(f['dst']), m.byteaddr(f['src'])
+                n = f['n']
+                ok = ad == base and as_ == (base[0], base[1] + pend[0]) and isinstance(n, int) and n >= pend[1] \
+                    and (K is None or pend[0] + n <= K) and (f['overlap_safe'] or pend[0] >= n)
+                if ok:
+                    R.check('R-C17d', 'write:remainder-compacted', True, '', loc_of(f))
+                    pend = None
+        elif k == 'shutdown':
+            n_shut += 1
+            R.check('R-C17a', 'shutdown-after-drain', gb == 0 and eof,
+                    'shutdown with %d bytes still buffered, end-of-file %sseen; ' % (gb, '' if eof else 'not '), loc_of(f), tail=D)
+            R.check('R-C17a', 'shutdown-output-when-requested', f['is_to'] and f['how'] == 1 and sc.flags != 0,
+                    'shutdown(%s, %s) with flags=%s; ' % (show_val(f['fd']), show_val(f['how']), sc.flags), loc_of(f), tail=D)
+        elif k == 'bands':
+            bands.append(f)
+        elif k == 'stray':
+            R.check('R-C17d', 'bytes-accounting', False, 'a transfer on the pump\'s descriptors that is neither the input nor the output transfer (%s); ' % f['callee'], loc_of(f), tail=D)
+        if eof and gb == 0 and gstage != 2 and not must_err:
+            gstage = 2
+            finished_now = True
+    if pend is not None:
+        R.check('R-C17d', 'write:remainder-compacted', False, 'return before the remainder of a partial write was moved to the base; ', loc_of(pend[2]), tail=D)
+    rv = st.marks.get('ret')
+    last_loc = st.marks.get('retloc') or (loc_of(st.effects[-1]) if st.effects else H.root.loc)
+    wloc = lambda fld: st.marks.get(('w', fld)) or last_loc
+    if end == 'fatal' and st.marks.get('last_branch_opaque'):
+        return      # an assertion about the environment (a value the pump state does not determine): assumed to hold
+    if end != 'ret':
+        R.check('R-C17b', 'stage-domain', False, 'the call ends in %s; ' % ('a noreturn call (iv_fatal)' if end == 'fatal' else 'falling off the end'), last_loc, tail=D)
+        return
+    wants_in = sc.full == 0 and sc.stage == 0
+    acq_fail = wants_in and not sc.hasbuf and not in_seen
+    if must_err:
+        okr = rv == -1
+    else:
+        okr = rv in (0, 1) or ((may_err or acq_fail) and rv == -1)
+    R.check('R-C17b', 'error-return-iff-transfer-failed', okr, 'returns %s, hard failure %s; ' % (show_val(rv), must_err), last_loc, tail=D)
+    fb, ff, fs, fbuf = H.fields(st)
+    isnull = isinstance(fbuf, int) and fbuf == 0
+    broot = None
+    if len(U) > 1:
+        R.check('R-C17d', 'buffer-release', False, 'the transfers of one call use more than one buffer object; ', last_loc, tail=D)
+    elif U:
+        broot = next(iter(U))
+    cached, nfree = release_facts(H, st, broot) if broot is not None else (False, 0)
+    released_once = nfree <= 1 and (cached != (nfree == 1))
+    if cached:
+        R.check('R-C17d', '%s:buffer-cached-only-empty' % H.root.name, mode == 'rw' or gb == 0,
+                'the buffer is put on the cache while its pipe holds %d bytes (bytes field %s); ' % (gb, show_val(fb)), last_loc, tail=D)
+    if rv == -1:
+        R.check('R-C17d', 'buffer-release', isnull and (broot is None or released_once),
+                'after an error: buf %s, cached %s, freed %d time(s); ' % ('NULL' if isnull else 'attached', cached, nfree), last_loc, tail=D)
+        return
+    # ---- normal return ------------------------------------------------------
+    R.check('R-C17c', 'input-attempted-when-wanted', in_seen or not wants_in, '', last_loc, tail=D)
+    R.check('R-C17c', 'output-attempted-when-data', out_seen or gb == 0, '%d bytes buffered and no output transfer; ' % gb, last_loc, tail=D)
+    R.check('R-C17d', 'bytes-accounting', fb == gb, 'bytes field %s, true fill level %d; ' % (show_val(fb), gb), wloc('bytes'), tail=D)
+    R.check('R-C17c', 'full-cleared-when-data-left' if out_progress else 'full-set-when-no-room', ff == gfull and need_query is None,
+            'full field %s, true state %d%s; ' % (show_val(ff), gfull, ' (the pipe refused input and nothing asked whether input is pending)' if need_query else ''), wloc('full'), tail=D)
+    R.check('R-C17a', 'final-stage-after-drain', not (fs == 2) or (gb == 0 and eof),
+            'final stage with %d bytes buffered, end-of-file %sseen; ' % (gb, '' if eof else 'not '), wloc('saw_fin'), tail=D)
+    R.check('R-C17a', 'eof-seen-on-zero-return', isinstance(fs, int) and (fs >= 1) == eof, 'stage field %s, end-of-file %sseen; ' % (show_val(fs), '' if eof else 'not '), wloc('saw_fin'), tail=D)
+    R.check('R-C17a', 'finishes-when-drained', not (eof and gb == 0) or fs == 2, 'stage field %s with end-of-file seen and nothing buffered; ' % show_val(fs), wloc('saw_fin'), tail=D)
+    R.check('R-C17a', 'shutdown-output-when-requested', n_shut == (1 if (finished_now and sc.flags) else 0),
+            '%d shutdown call(s), final stage entered in this call: %s, RELAY_EOF %s; ' % (n_shut, finished_now, bool(sc.flags)), last_loc, tail=D)
+    R.check('R-C17b', 'stage-domain', fs in (0, 1, 2), 'stage field %s; ' % show_val(fs), last_loc, tail=D)
+    want = (int(gstage == 0 and not gfull), int(gb != 0))
+    got = None
+    okb = len(bands) == 1 and not activity_after_bands
+    if okb:
+        a = bands[0]['args']
+        okb = len(a) == 2 and all(isinstance(x, int) for x in a) and bands[0]['cookie_ok']
+        if okb:
+            got = (int(a[0] != 0), int(a[1] != 0))
+            okb = got == want
+    okb = okb and rv == (0 if gstage == 2 else 1)
+    R.check('R-C17b', 'state(stage=%d,full=%d,data=%d)' % (gstage, gfull, int(gb != 0)), okb,
+            'expected set_bands%s return %d; ' % (want, 0 if gstage == 2 else 1), loc_of(bands[0]) if bands else last_loc, tail=D)
+    if gb == 0:
+        okrel = isnull and (broot is None or released_once)
+    else:
+        a = m.byteaddr(fbuf) if not isinstance(fbuf, int) else None
+        okrel = a is not None and a[0] == broot and not cached and nfree == 0
+    R.check('R-C17d', 'buffer-release', okrel, 'true fill level %d: buf %s, cached %s, freed %d time(s); ' % (gb, 'NULL' if isnull else 'attached', cached, nfree), last_loc, tail=D)
+
+
+def judge_destroy(H, R, sc, end, st, mode):
+    m = H.m
+    D = lambda: H.describe(sc, st, end) + (' [mode %s]' % mode)
+    last_loc = st.effects[-1]['e'].get('loc') if st.effects else H.root.loc
+    if end == 'fatal':
+        if not st.marks.get('last_branch_opaque'):
+            R.check('R-C17d', 'destroy:buffer-released', False, 'ends in a noreturn call; ', last_loc, tail=D)
+        return
+    bands = [f for f in st.effects if f['kind'] == 'bands']
+    okb = sc.stage == 2 and not bands
+    if bands:
+        a = bands[-1]['args']
+        okb = len(a) == 2 and all(isinstance(x, int) and x == 0 for x in a) and bands[-1]['cookie_ok']
+    R.check('R-C17b', 'destroy:bands-cleared', okb, '', bands[-1]['e'].get('loc') if bands else H.root.loc, tail=D)
+    fb, ff, fs, fbuf = H.fields(st)
+    isnull = isinstance(fbuf, int) and fbuf == 0
+    if sc.hasbuf:
+        broot = ('obj', H.BUF)
+        cached, nfree = release_facts(H, st, broot)
+        if cached:
+            R.check('R-C17d', '%s:buffer-cached-only-empty' % H.root.name, mode == 'rw' or sc.bytes == 0,
+                    'the buffer is put on the cache while its pipe holds %d bytes (bytes field at that time %s); ' % (
+                        sc.bytes, show_val([f for f in st.effects if f['kind'] in ('listadd', 'escape')][0]['fields'][0])), last_loc, tail=D)
+        R.check('R-C17d', 'destroy:buffer-released', isnull and nfree <= 1 and (cached != (nfree == 1)),
+                'buf %s, cached %s, freed %d time(s); ' % ('NULL' if isnull else 'attached', cached, nfree), last_loc, tail=D)
+    else:
+        stray = [f for f in st.effects if f['kind'] in ('listadd', 'free')]
+        R.check('R-C17d', 'destroy:buffer-released', isnull and not stray, 'no buffer attached, yet something is cached or freed; ', last_loc, tail=D)
+
+
+def judge_init(H, R, end, st):
+    D = lambda: H.describe(None, st, end)
+    if end == 'fatal' and st.marks.get('last_branch_opaque'):
+        return
+    bands = [f for f in st.effects if f['kind'] == 'bands']
+    fb, ff, fs, fbuf = H.fields(st)
+    ok = end in ('ret', 'exit') and fb == 0 and ff == 0 and fs == 0 and isinstance(fbuf, int) and fbuf == 0 and isinstance(fb, int) \
+        and isinstance(ff, int) and isinstance(fs, int)
+    if ok:
+        ok = bool(bands)
+        if ok:
+            a = bands[-1]['args']
+            ok = len(a) == 2 and all(isinstance(x, int) for x in a) and a[0] != 0 and a[1] == 0 and bands[-1]['cookie_ok'] \
+                and bands[-1]['fields'] == (0, 0, 0, 0)
+    R.check('R-C17b', 'init:state-and-bands', ok, '', bands[-1]['e'].get('loc') if bands else H.root.loc, fn=H.root.q, tail=D)
